@@ -7,7 +7,7 @@ NOTES = ('Technique family: static analysis only. Every check re-extracts the ty
          'again on the tls_rustls, tls_openssl and dns_lookup build configurations (rule ids <id>@<cfg>), plus the '
          'compile-fail witness of C18. Facts a property relies on from another property are imported rule-wise '
          '(DESIGN.md 9.5). bin/mutants is the self-test (hand-written mutants, reverse patches of every fix: commit, and '
-         '80 independently seeded changes with must-report / must-stay-silent expectations per check, and 40 independently written '
+         '100 independently seeded changes with must-report / must-stay-silent expectations per check, and 50 independently written '
          'behaviour-preserving refactorings on which every check must stay silent).')
 
 TRUST = ('Trusted base: rustc nightly THIR/MIR for this source (same cfgs as the stable build), the library '
@@ -22,14 +22,14 @@ CHECKS = {
         'level': ('Decides that a configuration reaches run_server only through MainConfig::new, whose Ok value implies validate() Ok, '
                   'nickname lengths and the certificate/key pair check, with all CLI overrides applied before validation; that the '
                   'generated validators cover name/password/user/operator/channel fields; that hashing and verification share instance, '
-                  'salt and parameters; that each CLI option overrides its own field; that each documented setting is read by the code '
+                  'salt and parameters and the clear text that is verified is the PASS / OPER parameter exactly as sent (stored, passed on and hashed unaltered); that each CLI option overrides its own field; that each documented setting is read by the code '
                   'implementing it (max_joins: compared with the running number of joined channels before every admission); and (TLS builds) that TLS only changes the transport.'),
         'note': TRUST + ' Cryptographic exactness and plain-vs-TLS transcript equality are not decided; serde deserialisation is trusted.',
     },
     'C18': {
         'technique': 'lock-region analysis over lexical guard live ranges: effect census under write guards, check-and-insert under one guard and registered-flag typestate for nickname claims, transitive acquires() summary for re-entrancy, query-event/guard matching for check-then-act, await census under guards; type-level compile-fail witness (E0596) with a compiling twin in the thorough tier',
         'level': ('Decides the lock discipline that makes each handler one atomic step: state reachable only through the RwLock, '
-                  'every effect under a write guard, no acquisition while a guard is held (deadlock freedom of the single lock), every '
+                  'every effect under a write guard, every acquisition an awaited read()/write() (no try_* acquisition whose failure would skip the guarded step), no acquisition while a guard is held (deadlock freedom of the single lock), every '
                   'presence fact an effect relies on queried under the same guard, one task per connection / one event per iteration / '
                   'in-order buffered output / single queue consumer, no I/O await under the lock, and for simultaneous nickname claims that check and insert share one write guard and the loser is not left marked registered. Linearizability of arbitrary schedules '
                   'as such is NOT decided.'),
@@ -75,7 +75,7 @@ CHECKS = {
                   'move exactly with the flags they count (three pinned-tree defects, repaired by fixes 3dcbe6b and 0a7a464), that no other '
                   'function writes them, that max_users_count is the high-water mark, that each LUSERS/ISON/USERHOST field is the '
                   'stated term, and that connection slots are taken once, compared as previous < max, returned on refusal and '
-                  'released exactly once by Drop of the only-here-constructed ConnState.'),
+                  'released exactly once by Drop of the only-here-constructed ConnState. The user count is the registry size: that every registered connection leaves the registry when it ends is imported (C03 R3.3/R3.6, C06 R6.1/R6.2), the channel count from C16 R16.2.'),
         'note': TRUST + ' Loop iterations of user MODE are treated as independent transitions (inductive step of the coupling invariant).',
     },
     'C16': {
@@ -108,7 +108,7 @@ CHECKS = {
                   'that every nick-keyed live container (from the struct definitions; new ones must be classified) is cleaned with '
                   'the departing nick under no condition other than presence (and the member\'s own rank flag for a rank set), that exactly one WHOWAS record is kept, that channels vanish iff empty and not preconfigured, '
                   'and that teardown touches nothing keyed by another nick or a channel the user was not on.'),
-        'note': TRUST + ' Depends on C02 R2.6 (the nick must be the connection\'s own; repaired on the pinned tree by fix 05cb942). Counters: C19.',
+        'note': TRUST + ' Depends on C02 R2.6 (the nick must be the connection\'s own; repaired on the pinned tree by fix 05cb942) and on C15 R15.2 (a nick change leaves no entry under the old nick: the teardown only clears the current one). Counters: C19.',
     },
     'C02': {
         'technique': 'who-may-write census on the user registry (typed receiver), check-and-insert under one write-guard region (lexical guard regions + query events), typestate entailment authenticated => registered, key-provenance of every User mutation',
@@ -150,7 +150,7 @@ CHECKS = {
                   'TOPIC is written/cleared/announced iff member and (not +t or half-op+), that INVITE records and notifies '
                   'exactly the invitee under the stated condition, each refusal numeric under exactly its condition, and that '
                   'the rank predicates implement the lattice. The two KICK robustness defects of the pinned tree are repaired (fixes 5b4a0cc, 8b18274).'),
-        'note': TRUST + ' Consumption of the invitation by JOIN is decided in C07.',
+        'note': TRUST + ' "Grants one admission": the life cycle of the recorded invitation (used up by the admitted JOIN and by no refused one) is imported from C07 R7.3/R7.4.',
     },
     'C01': {
         'technique': 'send-site census with receiver/source/payload provenance terms, shape and writer census of the nick!user@host source string, guard entailment (sender skipped, prefix bit matches rank set), pairwise exclusivity of fan-outs, table agreement',
